@@ -11,6 +11,7 @@ import optlang
 from optlang.symbolics import Basic, Zero
 
 from ..medium import find_boundary_types, find_external_compartment, sbo_terms
+from ..util import _verif
 from ..util.context import HistoryManager, get_context, resettable
 from ..util.solver import (
     add_cons_vars_to_problem,
@@ -1423,11 +1424,15 @@ class Model(Object):
         except AttributeError:
             self._contexts = [HistoryManager()]
 
+        _verif.point(
+            "ctx.enter", manager=id(self._contexts[-1]), depth=len(self._contexts)
+        )
         return self
 
     def __exit__(self, type, value, traceback) -> None:
         """Pop the top context manager and trigger the undo functions."""
         context = self._contexts.pop()
+        _verif.point("ctx.exit", manager=id(context), depth=len(self._contexts))
         # The undo functions call context-aware methods themselves; they must not
         # record new undo functions into the enclosing contexts.
         enclosing, self._contexts = self._contexts, []
